@@ -201,10 +201,15 @@ class static_view:
 
         """
         if self.package_name:
-            if resource_exists(
-                self.package_name, name
-            ) and not resource_isdir(self.package_name, name):
-                return resource_filename(self.package_name, name)
+            try:
+                if resource_exists(
+                    self.package_name, name
+                ) and not resource_isdir(self.package_name, name):
+                    return resource_filename(self.package_name, name)
+            except ValueError:
+                # pkg_resources refuses the name as absolute (a leading
+                # backslash or a drive letter): no such resource
+                return None
 
         elif isfile(name):
             return name
